@@ -23,7 +23,7 @@ func c10Base(t *decl.Type, pos int) string {
 	return ""
 }
 
-var c10Slices = []*decl.Type{nil, decl.TStrings, decl.TInts, decl.TPStrs}
+var c10Slices = []*decl.Type{nil, decl.TStrings, decl.TInts, decl.TPStrs, decl.TUint8s}
 
 var c10Units = [][]string{{"w"}, {"7"}, {"-3"}, {"-v"}, {"-s", "val"}, {"--"}, {"-x"}, {"cmd"}, {"-2"}, {"010"}, {"k:1"}, {`"7"`}, {"--str="}}
 
@@ -87,7 +87,10 @@ func init() {
 	body := func(c *explore.Ctx) {
 		li := c.Choose(len(layouts))
 		if li == 0 {
-			switch c.Choose(4) {
+			switch c.Choose(5) {
+			case 4:
+				c10TagValue(c)
+				return
 			case 1:
 				c10TwoStructs(c)
 				return
@@ -104,6 +107,9 @@ func init() {
 		popt := c.Choose(4) // bit 0 PassDoubleDash, bit 1 PassAfterNonOption
 		if si == 3 && (owner != 0 || popt == 0) {
 			c.Skip() // the slice of pointers goes with the parser-owned layouts under the pass-through options
+		}
+		if si == 4 && (owner != 0 || popt > 1) {
+			c.Skip() // the unsigned slice (010 is ten) goes with the parser-owned layouts
 		}
 		pdd := popt&1 != 0
 		api := c.Bool()
@@ -246,7 +252,7 @@ func init() {
 		ShardDepth: 5,
 		Body:       body,
 		Rule: "positional layouts: every sequence of 0..3 scalar fields over {string, int, Unmarshaler, map[string]int} (an int field at an odd position carries base:\"8\") x trailing slice {none, []string, []int, []*string (parser-owned layouts with a pass-through option)} x owner {parser, command, both (the same layout on each)} x {None, PassDoubleDash, PassAfterNonOption, both} x {tags, API} " +
-			"x every sequence of <= 4 units (<= 3 for layouts of two or three fields, PassAfterNonOption and both-owner declarations; thorough: one more everywhere, 6 for parser-owned layouts built through the API with PassDoubleDash) over {w, 7, -3, 010 (ten, or eight where the field says base 8), --str= (the empty value, attached), k:1, a quoted 7 (with its quotes: a positional is taken verbatim), -v, -s val, -2 (a declared flag with a digit as short name), --, -x, cmd}; oracle = CLM positional queue (field values after conversion, overflow into remaining arguments); beside that, three hand-built declarations (two positional-args structs on one parser; an unexported field between exported ones; the positional-args struct and a command behind nil pointers); after every accepted vector the public Args() list must still be the declared one and, for layouts without a slice, a second parse of the same vector on the same parser must bind the same fields",
+			"x every sequence of <= 4 units (<= 3 for layouts of two or three fields, PassAfterNonOption and both-owner declarations; thorough: one more everywhere, 6 for parser-owned layouts built through the API with PassDoubleDash) over {w, 7, -3, 010 (ten, or eight where the field says base 8), --str= (the empty value, attached), k:1, a quoted 7 (with its quotes: a positional is taken verbatim), -v, -s val, -2 (a declared flag with a digit as short name), --, -x, cmd}; oracle = CLM positional queue (field values after conversion, overflow into remaining arguments); beside that, four hand-built declarations (two positional-args structs on one parser; an unexported field between exported ones; the positional-args struct and a command behind nil pointers; the positional-args tag spelled y / 1 / true instead of yes, compared with the yes spelling on every vector of <= 4 tokens over {n, -v, 3, r}); after every accepted vector the public Args() list must still be the declared one and, for layouts without a slice, a second parse of the same vector on the same parser must bind the same fields",
 		Assumptions:  []string{"conversion of the alphabet's tokens is taken from the conversion model (checked against the library by C11)"},
 		RequiredHits: []string{"compared", "three-or-more-bound", "after-terminator", "conversion-fault", "second-parse"},
 		Bound:        [2]string{"all unit sequences of length <= 4", "all unit sequences of length <= 5 (<= 6 on one declaration family)"},
@@ -444,5 +450,72 @@ func c10NilPointer(c *explore.Ctx) {
 	}
 	if optsCmd.Sub == nil || optsCmd.Sub.Args.File != "f" || len(rest) != 0 {
 		c.Fail("positional|tokens-bound-into-a-command-struct-the-program-cannot-see", map[string]interface{}{"Sub": fmt.Sprintf("%+v", optsCmd.Sub), "rest": rest})
+	}
+}
+
+// c10TagValue: any non-empty value of the positional-args tag marks the struct; the binding is the same as with "yes".
+func c10TagValue(c *explore.Ctx) {
+	type args struct {
+		Name string
+		Num  int
+		Rest []string
+	}
+	var ref struct {
+		Verbose bool `short:"v"`
+		Args    args `positional-args:"yes"`
+	}
+	var y struct {
+		Verbose bool `short:"v"`
+		Args    args `positional-args:"y"`
+	}
+	var one struct {
+		Verbose bool `short:"v"`
+		Args    args `positional-args:"1"`
+	}
+	var tr struct {
+		Verbose bool `short:"v"`
+		Args    args `positional-args:"true"`
+	}
+	which := c.Choose(3)
+	toks := []string{"n", "-v", "3", "r"}
+	n := c.Choose(5)
+	var argv []string
+	for i := 0; i < n; i++ {
+		argv = append(argv, toks[c.Choose(len(toks))])
+	}
+	spelled := []string{"y", "1", "true"}[which]
+	c.Describe(func() interface{} {
+		return map[string]interface{}{"declaration": "Args struct{Name string; Num int; Rest []string} with positional-args:\"" + spelled + "\", compared with positional-args:\"yes\"", "argv": argv}
+	})
+	run := func(data interface{}, a *args) (rest []string, err error) {
+		defer func() {
+			if r := recover(); r != nil {
+				c.Fail("panic|"+explore.PanicSite(), fmt.Sprint(r))
+			}
+		}()
+		return flags.NewParser(data, flags.None).ParseArgs(argv)
+	}
+	restR, errR := run(&ref, &ref.Args)
+	var restO []string
+	var errO error
+	var got *args
+	switch which {
+	case 0:
+		restO, errO = run(&y, &y.Args)
+		got = &y.Args
+	case 1:
+		restO, errO = run(&one, &one.Args)
+		got = &one.Args
+	default:
+		restO, errO = run(&tr, &tr.Args)
+		got = &tr.Args
+	}
+	if c.Failed() {
+		return
+	}
+	c.Hit("tag-value-spellings")
+	c.Outcome("tag-value", errType(errR), fmt.Sprint(ref.Args))
+	if errType(errR) != errType(errO) || !sameStrings(restR, restO) || fmt.Sprint(ref.Args) != fmt.Sprint(*got) {
+		c.Fail("positional|tag-value-"+spelled, map[string]interface{}{"with_yes": fmt.Sprint(ref.Args, restR, errR), "with_" + spelled: fmt.Sprint(*got, restO, errO)})
 	}
 }
